@@ -25,7 +25,13 @@ import (
 	"verif/vs"
 )
 
-const VerifDir = "/verif"
+// VerifDir is where known_findings.json, evidence/ and replays/ live (the directory of the check script).
+var VerifDir = func() string {
+	if d := os.Getenv("VERIF_DIR"); d != "" {
+		return d
+	}
+	return "/verif"
+}()
 
 // Sc is a scenario plus how it is scheduled over workers.
 type Sc struct {
